@@ -242,13 +242,18 @@ pub fn run_c20(ctx: &Ctx) -> Report {
                     continue;
                 }
                 let has_script = id.split('-').skip(1).take(1).any(|t| t.len() == 4 && t.bytes().all(|c| c.is_ascii_alphabetic()));
-                if la != lb && !has_script && da.is_some() && db.is_some() {
+                // the refinement: WITHOUT likely-subtags a script-less identifier of a language
+                // that is listed right-to-left answers RTL; WITH them the likely script may turn
+                // that into LTR (C14, last clause: only for languages CLDR lists with more than
+                // one direction).  Nothing else may differ: not LTR -> RTL, nothing with TTB.
+                let (without, with) = if la { (db, da) } else { (da, db) };
+                if la != lb && !has_script && without.map(|s| s.as_str()) == Some("RTL") && with.map(|s| s.as_str()) == Some("LTR") {
                     dir_diffs_allowed += 1;
                     continue;
                 }
                 rep.collector.push(1_000_000 + dir_cmp, Violation {
                     sub: "c20.direction",
-                    class: if la == lb { "character_direction differs between feature sets with the same likely-subtags setting".to_string() } else { "character_direction differs for an identifier that has a script".to_string() },
+                    class: if la == lb { "character_direction differs between feature sets with the same likely-subtags setting".to_string() } else if has_script { "character_direction differs for an identifier that has a script".to_string() } else { "character_direction differs on a script-less identifier other than RTL (without likely-subtags) -> LTR (with)".to_string() },
                     case: Case::Text(format!("config:{} vs {} id {}", na, nb, id)),
                     expected: format!("[{}] {:?}", na, da),
                     observed: format!("[{}] {:?}", nb, db),
